@@ -7,6 +7,7 @@ import (
 	"os/exec"
 	"strconv"
 	"strings"
+	"syscall"
 	"time"
 )
 
@@ -23,28 +24,28 @@ func (r Result) String() string { return [...]string{"unsat", "sat", "unknown"}[
 // Solver talks SMT-LIB2 to one persistent z3 process. All definitions are global (level 0);
 // each query is push / asserts / check-sat / (get-value) / pop.
 type Solver struct {
-	ctx      *Ctx
-	cmd      *exec.Cmd
-	in       io.WriteCloser
-	lines    chan string
-	bin      string
-	args     []string
-	dead     bool
-	inited   bool
-	Restarts int
-	Unknowns int
+	ctx       *Ctx
+	cmd       *exec.Cmd
+	in        io.WriteCloser
+	lines     chan string
+	bin       string
+	args      []string
+	dead      bool
+	inited    bool
+	Restarts  int
+	Unknowns  int
 	LastError string
-	defined  map[int]bool
-	declVar  map[string]bool
-	declUF   map[string]bool
-	Queries  int
-	Time     time.Duration
-	Log      io.Writer
-	TimeoutS int
-	stack    []*Term
-	Incr     bool
-	Slow     int
-	SlowTime time.Duration
+	defined   map[int]bool
+	declVar   map[string]bool
+	declUF    map[string]bool
+	Queries   int
+	Time      time.Duration
+	Log       io.Writer
+	TimeoutS  int
+	stack     []*Term
+	Incr      bool
+	Slow      int
+	SlowTime  time.Duration
 }
 
 func NewSolver(ctx *Ctx, bin string, args ...string) (*Solver, error) {
@@ -67,6 +68,7 @@ func (s *Solver) start() error {
 		return err
 	}
 	cmd.Stderr = cmd.Stdout
+	cmd.SysProcAttr = &syscall.SysProcAttr{Pdeathsig: syscall.SIGKILL}
 	if err := cmd.Start(); err != nil {
 		return err
 	}
